@@ -530,7 +530,7 @@ def run(ctx, n=None):
         one(ctx, gen_big_case(rng, i), pending)
     for case in exhaustive_cases(rng, 2 if ctx.quick() else 40):
         one(ctx, case, pending)
-    for i in range(45 if ctx.quick() else 600):        # appended stream: irregular zones / values chunk pairs
+    for i in range(30 if ctx.quick() else 600):        # appended stream: irregular zones / values chunk pairs
         one(ctx, gen_chunk_case(rng, i), pending)
     if ctx.model is not None and pending:
         outs = ctx.model.run([p[0] for p in pending])
